@@ -72,6 +72,7 @@ type File struct {
 	ShortBudget int  // how many more reads may return fewer bytes than possible
 	StatFails   bool
 
+	SysV    interface{} // returned by Sys() of the file's infos
 	Names   []string // directory entries
 	Infos   []fs.FileInfo
 	Listed  int
@@ -264,6 +265,7 @@ type Info struct {
 	DirV   bool
 	MTimeV int64
 	ModeV  fs.FileMode
+	SysV   interface{}
 }
 
 func (i *Info) Name() string { return i.NameV }
@@ -276,7 +278,7 @@ func (i *Info) Mode() fs.FileMode {
 }
 func (i *Info) ModTime() time.Time { return verifrt.TimeUnix(i.MTimeV) }
 func (i *Info) IsDir() bool        { return i.DirV }
-func (i *Info) Sys() interface{}   { return nil }
+func (i *Info) Sys() interface{}   { return i.SysV }
 
 // Entry is one object of the stub file system.
 type Entry struct {
@@ -387,7 +389,7 @@ func (s *Fs) Stat(name string) (os.FileInfo, error) {
 		}
 		return nil, os.ErrNotExist
 	}
-	return &Info{NameV: baseName(name), SizeV: e.File.Size, DirV: e.File.Dir, MTimeV: e.File.MTime}, nil
+	return &Info{NameV: baseName(name), SizeV: e.File.Size, DirV: e.File.Dir, MTimeV: e.File.MTime, SysV: e.File.SysV}, nil
 }
 
 func (s *Fs) result(op string) error {
